@@ -474,10 +474,18 @@ func condCheck(op drv.Op, stored val.Item) *drv.Resp {
 	panic("model: ambiguous write condition " + op.Cond.String() + " " + rx.MaskString(mask))
 }
 
+// retValsOK: PutItem and DeleteItem accept ReturnValues NONE and ALL_OLD only.
+func retValsOK(op drv.Op) bool {
+	return op.RetVals == "" || op.RetVals == "NONE" || op.RetVals == "ALL_OLD"
+}
+
 func (m *Model) put(op drv.Op) drv.Resp {
 	t, ks, _, rej := m.preWrite(op, op.Item)
 	if rej != nil {
 		return *rej
+	}
+	if !retValsOK(op) {
+		return reject(drv.EAnyErr)
 	}
 	if r := condCheck(op, t.Items[ks]); r != nil {
 		return *r
@@ -493,6 +501,9 @@ func (m *Model) del(op drv.Op) drv.Resp {
 	t, ks, _, rej := m.preWrite(op, op.Key)
 	if rej != nil {
 		return *rej
+	}
+	if !retValsOK(op) {
+		return reject(drv.EAnyErr)
 	}
 	old := t.Items[ks]
 	if r := condCheck(op, old); r != nil {
